@@ -1,5 +1,7 @@
 // C20 harness: guard-byte grid over every API function that copies a string into a caller buffer.
 // Prints one line per call:  <fn> <srchex> <n> <before-hex> <after-hex> <ret>
+// A function name may carry a `#variant` suffix (same copy site, another way of reaching it): #missing (no such key),
+// #list / #map (the node is not a string), #int (a scalar stored as a number), #long (stored lengths around 256 / 1024 / 4096).
 // usage: c20_harness <workdir> <maxlen> <maxn>
 #include "hcommon.h"
 #include <rime/service.h>
@@ -73,6 +75,44 @@ int main(int argc, char** argv) {
       grid_call("RimeGetSyncDirSecure", p, n, [&](char* b, size_t k) { api->get_sync_dir_s(b, k); return 1; });
     }
     dep.user_data_dir = rime::path(dir); dep.staging_dir = rime::path(dir + "/build"); dep.shared_data_dir = rime::path(dir); dep.prebuilt_data_dir = rime::path(dir + "/build");
+  }
+  // ---- other ways of reaching the same sites
+  {
+    api->config_create_list(&cfg, "c20_list");
+    api->config_create_map(&cfg, "c20_map");
+    api->config_set_int(&cfg, "c20_int", -1234567);
+    api->config_set_string(&cfg, "c20_map/inner", "x");
+    for (size_t n = 1; n <= maxn; ++n) {
+      grid_call("RimeGetProperty#missing", "", n, [&](char* b, size_t k) { return api->get_property(s, "c20_no_such_property", b, k); });
+      grid_call("RimeConfigGetString#missing", "", n, [&](char* b, size_t k) { return api->config_get_string(&cfg, "c20_no_such_key", b, k); });
+      grid_call("RimeConfigGetString#list", "", n, [&](char* b, size_t k) { return api->config_get_string(&cfg, "c20_list", b, k); });
+      grid_call("RimeConfigGetString#map", "", n, [&](char* b, size_t k) { return api->config_get_string(&cfg, "c20_map", b, k); });
+      grid_call("RimeConfigGetString#int", "-1234567", n, [&](char* b, size_t k) { return api->config_get_string(&cfg, "c20_int", b, k); });
+    }
+    // long values: internal fixed-size staging buffers, if any, would be 256 / 1024 / 4096 bytes
+    static const size_t kLong[] = {255, 256, 257, 1023, 1024, 1025, 4095, 4096, 4097};
+    for (size_t len : kLong) {
+      std::string v;
+      for (size_t i = 0; i < len; ++i) v.push_back("luna_pinyin"[i % 11]);
+      std::string p = "/" + v.substr(1);
+      api->set_property(s, "k", v.c_str());
+      api->config_set_string(&cfg, "k", v.c_str());
+      rime::path pp(p); dep.shared_data_dir = pp; dep.user_data_dir = pp; dep.prebuilt_data_dir = pp;
+      dep.staging_dir = pp; dep.sync_dir = pp;
+      std::string sync = dep.user_data_sync_dir().string();
+      const size_t ns[] = {1, 2, len - 1, len, len + 1, len + 2};
+      for (size_t n : ns) {
+        grid_call("RimeGetProperty#long", v, n, [&](char* b, size_t k) { return api->get_property(s, "k", b, k); });
+        grid_call("RimeConfigGetString#long", v, n, [&](char* b, size_t k) { return api->config_get_string(&cfg, "k", b, k); });
+        grid_call("RimeGetUserDataSyncDir#long", sync, n, [&](char* b, size_t k) { api->get_user_data_sync_dir(b, k); return 1; });
+        grid_call("RimeGetSharedDataDirSecure#long", p, n, [&](char* b, size_t k) { api->get_shared_data_dir_s(b, k); return 1; });
+        grid_call("RimeGetUserDataDirSecure#long", p, n, [&](char* b, size_t k) { api->get_user_data_dir_s(b, k); return 1; });
+        grid_call("RimeGetPrebuiltDataDirSecure#long", p, n, [&](char* b, size_t k) { api->get_prebuilt_data_dir_s(b, k); return 1; });
+        grid_call("RimeGetStagingDirSecure#long", p, n, [&](char* b, size_t k) { api->get_staging_dir_s(b, k); return 1; });
+        grid_call("RimeGetSyncDirSecure#long", p, n, [&](char* b, size_t k) { api->get_sync_dir_s(b, k); return 1; });
+      }
+      dep.user_data_dir = rime::path(dir); dep.staging_dir = rime::path(dir + "/build"); dep.shared_data_dir = rime::path(dir); dep.prebuilt_data_dir = rime::path(dir + "/build");
+    }
   }
   api->config_close(&cfg);
   api->destroy_session(s);
